@@ -156,6 +156,12 @@ def line_table(texts):
             msgs.append((dump, notif))
         return index[key]
 
+    def entry(t):
+        e = {"id": mid(t[0], t[1]), "notif": t[1]}
+        if len(t) > 2 and t[2] is not None:
+            e["key"] = t[2]
+        return e
+
     seen = set()
     for t in texts:
         key = t.strip()
@@ -164,10 +170,10 @@ def line_table(texts):
         seen.add(key)
         v = stdio_h.parse_line(key)
         if v[0] == "single":
-            table.append({"line": key, "k": "single", "id": mid(v[1], v[2]), "notif": v[2]})
+            table.append(dict(entry(v[1:]), line=key, k="single"))
         elif v[0] == "batch":
             table.append({"line": key, "k": "batch", "items": [
-                None if it is None else {"id": mid(it[0], it[1]), "notif": it[1]} for it in v[1]]})
+                None if it is None else entry(it) for it in v[1]]})
     return table, msgs
 
 
